@@ -157,6 +157,16 @@ def check_report(case, op, out, removed, full, t, backing, last_state, stats, re
                 return "root_node: MissingTraversalNode does not name the root at the empty path"
             if op[0] == "traverse" and (list(pre) != list(op[1])[: len(pre)] or not on_path(full, bytes(t.root_hash), list(pre), h)):
                 return "traverse: nibbles_traversed does not lead to the missing node"
+        if op[0] in ("set", "del") and out.tag == 8:
+            # the missing node lies on the requested key's path: it is the reference reached by some prefix of the key's
+            # nibbles — or, for a delete, a sibling of such a reference (the last remaining child that a collapsing branch
+            # is merged with)
+            ns = [x for b in op[1] for x in (b >> 4, b & 15)]
+            cands = [ns[:i] for i in range(len(ns) + 1)]
+            if op[0] == "del":
+                cands += [ns[:i] + [n] for i in range(len(ns) + 1) for n in range(16)]
+            if not any(on_path(full, bytes(t.root_hash), c, h) for c in cands):
+                return f"{op[0]}: the reported missing node {h.hex()[:8]} does not lie on the key's path"
         if op[0] in ("set", "del"):
             stats["fail_writes"] += 1
             now = HX.state_obs(t)
